@@ -481,3 +481,27 @@ Section SafeStrict.
     - cbn. exact I.
   Qed.
 End SafeStrict.
+
+Lemma mon_steps_sound_x_strict now s p i :
+  mon_steps i [(oclass (xprop_validate p), oclass (handle_xprop now true s p))] = [].
+Proof.
+  cbn. destruct (xprop_validate p) as [[]| |] eqn:Ev; cbn; try reflexivity.
+  pose proof (handle_xprop_strict_safe now s p Ev) as H.
+  destruct (handle_xprop now true s p); cbn in *; [reflexivity | reflexivity | congruence].
+Qed.
+
+(** Histories executed by gov.EndBlocker with the handlers of /repo HEAD: any start state. *)
+Fixpoint run_gov_head (now : N) (s : xstate) (ps : list xprop) : outcome xstate :=
+  match ps with
+  | [] => Ok s
+  | p :: t => match gov_exec (handle_xprop now true) s p with Ok s' => run_gov_head now s' t | Err => Err | Panic => Panic end
+  end.
+
+Theorem run_gov_head_safe now ps : forall s,
+  (forall p, In p ps -> xprop_validate p = Ok tt) -> exists s', run_gov_head now s ps = Ok s'.
+Proof.
+  induction ps as [|p t IH]; cbn; intros s Hv; [eauto|].
+  pose proof (handle_xprop_strict_safe now s p (Hv p (or_introl eq_refl))) as H.
+  unfold gov_exec. destruct (handle_xprop now true s p) as [s'| |]; [| |congruence];
+    apply IH; intros q Hq; apply Hv; right; exact Hq.
+Qed.
